@@ -201,12 +201,15 @@ static void sc_filters(int variant) {
 		lzma_stream s = LZMA_STREAM_INIT; s.allocator = &FA; lzma_options_lzma o2 = o_small; o2.lc = 0; o2.lp = 2; lzma_filter up[2] = { { LZMA_FILTER_LZMA2, &o2 }, { LZMA_VLI_UNKNOWN, NULL } };
 		lzma_options_lzma snap = o2;
 		if (chk(lzma_stream_encoder(&s, ch_lzma2, LZMA_CHECK_CRC32), LZMA_OK, LZMA_OK, "lzma_stream_encoder")) goto out;
-		s.next_in = plain; s.avail_in = 100; s.next_out = obuf; s.avail_out = sizeof obuf;
-		if (chk(lzma_code(&s, variant == 3 ? LZMA_SYNC_FLUSH : LZMA_FULL_FLUSH), LZMA_STREAM_END, LZMA_STREAM_END, "lzma_code(flush)")) goto out;
-		lzma_ret r = lzma_filters_update(&s, up); if (memcmp(&snap, &o2, sizeof o2)) MISBEHAVE("lzma_filters_update modified the caller's options");
+		size_t already = variant >= 5 ? 0 : 100;	// variants 5, 6: the update comes before any data (6: twice)
+		s.next_in = plain; s.avail_in = already; s.next_out = obuf; s.avail_out = sizeof obuf;
+		if (already && chk(lzma_code(&s, variant == 3 ? LZMA_SYNC_FLUSH : LZMA_FULL_FLUSH), LZMA_STREAM_END, LZMA_STREAM_END, "lzma_code(flush)")) goto out;
+		if (variant == 6) { lzma_ret r0 = lzma_filters_update(&s, ch_lzma2); if (r0 != LZMA_OK && !(r0 == LZMA_MEM_ERROR && fa_failed)) MISBEHAVE("first lzma_filters_update returned %d", r0); else if (r0 != LZMA_OK && sc_status == 0) sc_status = 1; }
+		lzma_filter up2[3] = { { LZMA_FILTER_DELTA, &o_delta }, { LZMA_FILTER_LZMA2, &o_big }, { LZMA_VLI_UNKNOWN, NULL } };	// another chain: needs new allocations (variants 4, 5, 6)
+		lzma_ret r = lzma_filters_update(&s, variant >= 4 ? up2 : up); if (memcmp(&snap, &o2, sizeof o2)) MISBEHAVE("lzma_filters_update modified the caller's options");
 		if (r != LZMA_OK && !(r == LZMA_MEM_ERROR && fa_failed)) MISBEHAVE("lzma_filters_update returned %d", r); else if (r != LZMA_OK && sc_status == 0) sc_status = 1;
 		// whether or not the update succeeded the encoder stays usable and the stream decodes to the input
-		s.next_in = plain + 100; s.avail_in = 200; lzma_ret c; while ((c = lzma_code(&s, LZMA_FINISH)) == LZMA_OK) {}
+		s.next_in = plain + already; s.avail_in = 300 - already; lzma_ret c; while ((c = lzma_code(&s, LZMA_FINISH)) == LZMA_OK) {}
 		if (c == LZMA_MEM_ERROR && fa_failed) { if (sc_status == 0) sc_status = 1; goto out; }
 		if (c != LZMA_STREAM_END) { MISBEHAVE("encoder unusable after filters_update (ret %d)", c); goto out; }
 		{ size_t n = s.total_out; static unsigned char dec[4096]; size_t ip = 0, op = 0; uint64_t ml = UINT64_MAX; lzma_ret d = lzma_stream_buffer_decode(&ml, 0, NULL, obuf, &ip, n, dec, &op, sizeof dec);
@@ -261,7 +264,7 @@ static void build_table(int thorough) {
 	for (int k = 0; k < K_NKINDS; k++) { snprintf(nm, sizeof nm, "init:%s", KN[k]); add(nm, 1, k, 0, 0, 0); }
 	for (int k = 0; k < K_NKINDS; k++) { snprintf(nm, sizeof nm, "job:%s", KN[k]); add(nm, 2, k, 0, 0, 0); snprintf(nm, sizeof nm, "job-7byte-input:%s", KN[k]); add(nm, 2, k, 7, 0, 0); }
 	for (int v = 0; v < 5; v++) { snprintf(nm, sizeof nm, "index:variant%d(%s)", v, v == 0 ? "append3" : v == 1 ? "append600" : v == 2 ? "cat" : v == 3 ? "cat+dup" : "cat+dup+encode/decode"); add(nm, 3, v, 0, 0, 0); }
-	add("filters_copy", 4, 0, 0, 0, 0); add("str_to/from/list_filters", 4, 1, 0, 0, 0); add("block_header/filter_flags/properties decode", 4, 2, 0, 0, 0); add("filters_update after SYNC_FLUSH", 4, 3, 0, 0, 0); add("filters_update after FULL_FLUSH", 4, 4, 0, 0, 0);
+	add("filters_copy", 4, 0, 0, 0, 0); add("str_to/from/list_filters", 4, 1, 0, 0, 0); add("block_header/filter_flags/properties decode", 4, 2, 0, 0, 0); add("filters_update after SYNC_FLUSH", 4, 3, 0, 0, 0); add("filters_update after FULL_FLUSH", 4, 4, 0, 0, 0); add("filters_update before any data", 4, 5, 0, 0, 0); add("two filters_update calls before any data", 4, 6, 0, 0, 0);
 	// histories on one handle without lzma_end: all ordered pairs (thorough: triples over a core set), three kinds of activity in between
 	for (int a = 0; a < K_NKINDS; a++) for (int b = 0; b < K_NKINDS; b++) for (int cb = 0; cb < 3; cb++) { snprintf(nm, sizeof nm, "history:%s->%s(%s)", KN[a], KN[b], cb == 0 ? "no coding" : cb == 1 ? "full job" : "partial job"); add(nm, 5, a, b, -1, cb); }
 	static const int core[] = { K_ALONE_DEC_A, K_ALONE_DEC_B, K_STREAM_DEC, K_RAW_DEC, K_RAW_DEC_BIG, K_EASY_ENC, K_INDEX_DEC, K_LZIP_DEC };
